@@ -437,6 +437,30 @@ def b_native(B):
             lines = _gen_meta(rng)
             text = "".join(f"{k}={v}\n" for k, v in lines.items())
             keys_ok, diffs, m1, m2 = _roundtrip(text, d)
+            # the first parse against an independent reading of the same lines: key = text before the FIRST '=', integers by value, 'a=b=7' kept verbatim;
+            # and the same file without its final newline (SpikeGLX writes some that way) parses to the same dictionary
+            ind = []
+            exp = {}
+            for k, v in lines.items():
+                exp[k.lstrip("~")] = v           # '~key' and 'key' are the same entry: the later line wins, the position is the first one's
+            exp_keys = list(exp)
+            if list(m1.keys())[:len(exp_keys)] != exp_keys:          # (the parser appends a few derived entries after the file's own)
+                ind.append(("keys", [a_ for a_, b_ in zip(list(m1.keys()) + ["-"] * len(exp_keys), exp_keys) if a_ != b_][:3], [b_ for a_, b_ in zip(list(m1.keys()) + ["-"] * len(exp_keys), exp_keys) if a_ != b_][:3]))
+            for k, v in exp.items():
+                got = m1.get(k)
+                if v.isdigit() and got != float(int(v)):
+                    ind.append((k, v, got))
+                if v.startswith("a=b=") and got != v:
+                    ind.append((k, v, got))
+            with open(os.path.join(d, "nonl.meta"), "w") as f_:
+                f_.write(text[:-1])
+            try:
+                m3 = spikeglx.read_meta_data(os.path.join(d, "nonl.meta"))
+                if list(m3.keys()) != list(m1.keys()) or any(not (m3[k] == m1[k]) for k in m1):
+                    ind.append(("without the final newline", [k for k in m1 if k not in m3 or not (m3[k] == m1[k])][:3]))
+            except Exception as e:
+                ind.append(("without the final newline: raised", repr(e)[:80]))
+            B.case(("generated_independent_reading", t), not ind, detail=ind[:3], inputs={"kind": "generated_independent", "text": text[:300]})
             small = [k for k in diffs if isinstance(m1[k], float) and 0 < abs(m1[k]) < 1e-4]
             other = [k for k in diffs if k not in small]
             if small:
